@@ -5,7 +5,7 @@ From C04 Require Import Model Statement Proofs.
 Import ListNotations.
 
 Section Gen.
-Variable dr : bool.
+Variable dr : flags.
 Variable m : mid.
 
 Lemma abs_run_app : forall l1 l2 a,
@@ -34,6 +34,9 @@ Qed.
 
 Lemma silent_commit_if : forall b, silent (commit_if b).
 Proof. intros [|] x Hx; simpl in Hx; [destruct Hx as [<-|[]]; reflexivity | destruct Hx]. Qed.
+
+Lemma silent_load : forall touch, silent (gen_load touch).
+Proof. intros touch x Hx. unfold gen_load in Hx. apply in_map_iff in Hx. destruct Hx as (y & <- & _). reflexivity. Qed.
 
 Lemma step_view_inst_other : forall m' p, m' <> m -> step_view m (inst m' p) = None.
 Proof.
@@ -247,18 +250,23 @@ Lemma protocol_ok_round_checked : forall P r,
 Proof.
   intros P r Hok Hnd m. unfold protocol_ok in Hok. apply andb_true_iff in Hok. destruct Hok as [Hseq Hpar].
   destruct (r_shape r) as [sccs|ws]; simpl in *.
-  - constructor; [|constructor]. unfold checked_steps.
+  - constructor; [|constructor]. unfold checked_steps. rewrite abs_run_app.
+    rewrite (abs_run_silent _ m _ a0 (silent_load m (r_touch r))).
     destruct (in_dec Nat.eq_dec m (concat sccs)) as [Hin|Hin].
     + rewrite (gen_seq_act _ m P sccs Hnd Hin a0).
-      destruct (abs_ps (p_data_fail_drops P) a0 (concat (p_seq P))); [reflexivity | discriminate].
+      destruct (abs_ps (pflags P) a0 (concat (p_seq P))); [reflexivity | discriminate].
     + rewrite (abs_run_silent _ m _ a0 (gen_seq_silent m P sccs Hin)). reflexivity.
-  - apply Forall_forall. intros steps Hs. apply in_map_iff in Hs. destruct Hs as (w & <- & Hw).
+  - constructor.
+    { unfold checked_steps.
+      rewrite (abs_run_silent _ m _ a0 (silent_app m _ _ (silent_load m (r_touch r)) (silent_commit_if m _))).
+      reflexivity. }
+    apply Forall_forall. intros steps Hs. apply in_map_iff in Hs. destruct Hs as (w & <- & Hw).
     unfold checked_steps.
     assert (Hndw : NoDup (worker_mods w)).
     { apply (NoDup_concat_in (map worker_mods ws)); [exact Hnd | apply in_map; exact Hw]. }
     destruct (in_dec Nat.eq_dec m (worker_mods w)) as [Hin|Hin].
     + rewrite (gen_worker_act _ m P w Hndw Hin a0).
-      destruct (abs_ps (p_data_fail_drops P) a0 (concat (p_iface P) ++ concat (p_impl P))); [reflexivity | discriminate].
+      destruct (abs_ps (pflags P) a0 (concat (p_iface P) ++ concat (p_impl P))); [reflexivity | discriminate].
     + rewrite (abs_run_silent _ m _ a0 (gen_worker_silent m P w Hin)). reflexivity.
 Qed.
 
